@@ -94,4 +94,9 @@ CHECKS = {
         quick=dict(groups=[G("stateful", "^TestC12Stateful$", 120, 8), G("roundtrip", "^TestC12RoundTrip$", 100, 2)]),
         thorough=dict(groups=[G("stateful", "^TestC12Stateful$", 2500, 14), G("roundtrip", "^TestC12RoundTrip$", 2000, 2)]),
     ),
+    "C17": dict(
+        title="Vote-collected actions fire exactly at 2/3+1 distinct Alphabet votes",
+        quick=dict(groups=[G("stateful", "^TestC17Stateful$", 150, 8), E("exhaustive", "^TestC17Exhaustive$", 8, env=dict(VERIF_C17_MAXLEN=4))]),
+        thorough=dict(groups=[G("stateful", "^TestC17Stateful$", 3000, 16), E("exhaustive", "^TestC17Exhaustive$", 16, env=dict(VERIF_C17_MAXLEN=5))]),
+    ),
 }
